@@ -60,7 +60,8 @@ def main():
         sh("git worktree prune", REPO)
         shutil.rmtree(base, ignore_errors=True)
     json.dump({"repo_head": head, "results": table,
-               "all_detected": all(any(v.get("detected") for v in r.values()) for r in table.values() if "error" not in r),
+               "all_detected_except_known_gaps": all(any(v.get("detected") for v in r.values()) for d, r in table.items()
+                                                     if "error" not in r and not json.load(open(os.path.join(seeded, d, "meta.json"))).get("undetected")),
                "known_gaps": sorted(d for d in table if json.load(open(os.path.join(seeded, d, "meta.json"))).get("undetected"))},
               open(path, "w"), indent=1, sort_keys=True)
     known_gaps = {d for d in table if json.load(open(os.path.join(seeded, d, "meta.json"))).get("undetected")}
